@@ -3,7 +3,8 @@
   proof      lean/SoxrModel/Properties/C10.lean on the model lean/SoxrModel/Chan/Clear.lean (`struct soxr` as a record, field
              by field; create / set_input_fn / set_io_ratio / set_num_channels / clear / delete0 / initialise / fatal_error as
              functions; every other call as a footprint; FFT cache and VR tables as process-wide state):
-             clear_eq_fresh for EVERY prior state, clear_resets, history_keeps_config / clear_after_history for every
+             clear_eq_fresh for EVERY prior state that a fatal error has not torn down, clear_torn_down_keeps_error for those,
+             clear_resets, history_keeps_config / clear_after_history for every
              history, instances_independent_struct, fft_view_history_independent / instances_independent_partial (under
              the assumed prefix property of the FFT tables), and the negations vr_not_independent (F6) and
              (clear_forgets_ratio_without_channels: historical witness of F18, repaired in /repo by 76fe472; replayed).
@@ -328,15 +329,21 @@ def fields_correspondence(ctx, ncases):
         if unconf:
             kv["ir"] = 0; kv["or"] = 0
         reset = 1 if (int(kv["recipe"]) & 15) < 8 else 0
+        # a deferred object whose quality spec the engine will reject once it is initialised: soxr_create accepts it (nothing is
+        # built yet), the late soxr_set_io_ratio / soxr_set_num_channels fails inside initialise -> fatal_error tears it down
+        bad = (zero_ch or unconf) and not vr and reset and rng.chance(.5)
+        if bad:
+            kv.update(dict([rng.choice([("prec", 100), ("prec", 3), ("phase", 150)])]) if rng.chance(.6) else {"pb": 1.5, "sb": 1.2})
         c_lines, m_lines, expect = [], [], []
 
         def both(c, m):
             c_lines.append(c); m_lines.append(m)
         both("new X " + cl.kvline(kv), None)
-        both("X fields", "c10 new X %d %d %d %d" % (int(kv["ch"]), 0 if unconf else 7, reset, 1 if vr else 0))
+        both("X fields", "c10 new X %d %d %d %d%s" % (int(kv["ch"]), 0 if unconf else 7, reset, 1 if vr else 0, " bad" if bad else ""))
         live = not zero_ch and not unconf
         registered = False
         flushed = False
+        late = False                                         # deferred configuration supplied
         for _ in range(2 + rng.below(6)):
             k = rng.below(10)
             if k < 2:
@@ -352,17 +359,24 @@ def fields_correspondence(ctx, ncases):
                 if fnreg is not None:
                     both(None, "c10 X setfn %d" % fnreg)
                 both("X fields", "DYN")
+            elif k < 6 and (zero_ch or unconf) and not late:
+                # the deferred parameter arrives: initialise runs now (and fails for a bad spec: the object is torn down)
+                late = True
+                if unconf:
+                    both("X ratio 2 0", None); both("X fields", "c10 X ratio 7")
+                else:
+                    both("X setch 2", None); both("X fields", "c10 X setch 2")
+                ctx.count("torn_down_objects" if bad else "late_configured_objects")
+                if bad and rng.chance(.5):
+                    # processing calls on the torn-down handle must return its error, not crash
+                    both("X proc 1 0 1 10 10", None); both("X pull 5", None); both("X fields", "c10 X fields")
             elif k < 9:
                 both("X clear", "c10 X clear")
                 flushed = False
-                if not reset and not zero_ch and not unconf:
+                if not reset and not unconf and (not zero_ch or late):
                     both(None, "c10 X ratio 7")          # history.c re-establishes the ratio as soxr-lsr.c does
-                both(None, "c10 X dyn 0 0 0")           # history.c pins the dither seed after soxr_clear
+                both(None, "c10 X pin")                  # history.c pins the dither seed after soxr_clear
                 both("X fields", "c10 X fields")
-            elif unconf and not zero_ch:
-                # late configuration of the ratio (soxr_set_io_ratio on an unconfigured object) is not exposed by history.c's
-                # op set with a positive ratio for ir=or=0 objects; skip
-                pass
         rc, out, err = run_history(exe, [l for l in c_lines if l])
         fl = [l for l in out if l.startswith("F X")]
         # build the model input, resolving DYN from the real answers (the footprint of process/output: error, clips, flushing)
@@ -393,9 +407,43 @@ def fields_correspondence(ctx, ncases):
             w2 = " ".join(t for t in w.split() if not t.startswith("io_ratio="))
             if w2 != g:
                 return {"real_stdin": [l for l in c_lines if l], "model_stdin": mi, "at": m, "real": w2, "model": g}
-        ctx.hist("fields_case", "ch0" if zero_ch else "unconfigured" if unconf else ("vr" if vr else "reset" if reset else "lsr"))
+        ctx.hist("fields_case", "torn-down" if (bad and late) else "ch0" if zero_ch else "unconfigured" if unconf else ("vr" if vr else "reset" if reset else "lsr"))
     ctx.count("fields_lines", n)
     return None
+
+
+def torn_down_histories(ctx):
+    """Deferred objects (0 channels or 0 rates) whose spec the engine rejects when the deferred parameter arrives: fatal_error
+    tears them down.  Then (commit b5a678f, F40; theorems clear_torn_down_keeps_error / torn_down_absorbing): soxr_clear returns
+    the error and changes nothing (struct memcmp against a twin that was not cleared), also the second time and with an
+    input function registered; soxr_process / soxr_output return the error (no crash, no output, no input consumed);
+    soxr_engine answers "none"."""
+    exe = cl.exe_history()
+    n = 0
+    for bad in ["prec=100", "prec=3", "phase=150", "pb=1.5 sb=1.2"]:
+        for recipe in (4, 6, 1):
+            for path in ("ratio", "setch"):
+                base = ("ir=0 or=0 ch=2" if path == "ratio" else "ir=3 or=2 ch=0") + " recipe=%d %s itype=%d otype=%d" % (recipe, bad, ctx.rng.below(8), ctx.rng.below(8))
+                late = "ratio 1.5 0" if path == "ratio" else "setch 2"
+                lines = ["new X " + base, "X " + late, "new Y " + base, "Y " + late, "X structcmp Y", "X clear", "X structcmp Y",
+                         "X setfn 64", "Y setfn 64", "X clear", "X clear", "X structcmp Y",
+                         "X proc 1 0 1 100 100", "X proc 0 0 0 0 50", "X pull 30 d10", "X hash",
+                         # (soxr_process latches `flushing` before it looks at the error: the twin gets the same calls)
+                         "Y proc 1 0 1 100 100", "Y proc 0 0 0 0 50", "Y pull 30 d10", "X clear", "X structcmp Y", "del X", "del Y"]
+                rc, out, err = run_history(exe, lines)
+                n += 1
+                sc = [l for l in out if l.startswith("SC ")]
+                h = hline(out)
+                nclr = len([l for l in out if l.startswith("E X clear")])
+                ok = (rc == 0 and len(sc) == 4 and all(l.endswith("equal") for l in sc) and nclr == 4 and h is not None
+                      and " engine=none " in h and " out=0 " in h and " pos=0 " in h and " err=E " in h
+                      and any(l.startswith("E X " + late.split()[0]) for l in out))
+                if not ok:
+                    ctx.violation("a resampler torn down by a failed deferred initialisation (%s, %s) is not left alone by soxr_clear / "
+                                  "does not answer processing calls with its error: rc=%s %s" % (bad, path, rc, (sc + [h or "no H line"] + [err[-200:]])),
+                                  {"harness": "chan/history.c", "stdin": lines})
+    ctx.cov["torn_down_histories"] = n
+    ctx.count("histories", n)
 
 
 def replay_F18(ctx):
@@ -441,6 +489,7 @@ def run(ctx):
     nviol = falsifier(ctx, 80 if ctx.quick else 2500)
     pinned_mixed_pairs(ctx)
     first_instance_matrix(ctx)
+    torn_down_histories(ctx)
     replay_F6(ctx)
     replay_F18(ctx)
     if mismatch:
